@@ -1,4 +1,6 @@
 import MocVerif.Model.STCodec
+import MocVerif.Model.STText
+import Driver.Codec
 import Driver.Common
 import Driver.C06
 import MocVerif.Model.ST
@@ -84,6 +86,15 @@ def stepSTCodec (toks : List String) : Option String :=
   | ["st_fits_enc", w, m] => do
     let w ← w.toNat?; let m ← parseST m
     pure (showRngs (STCodec.encodeST w m))
+  | ["st_ascii_dec", w, hex] => do
+    let w ← w.toNat?
+    let text ← if hex == "_" then some [] else unhex hex.toList
+    pure (match STText.decodeText w text with
+      | .ok (d1, d2, es) => s!"{d1} {d2} {showElems es}"
+      | .error _ => "err")
+  | ["st_ascii_enc", w, d1, d2, m] => do
+    let w ← w.toNat?; let d1 ← d1.toNat?; let d2 ← d2.toNat?; let m ← parseST m
+    pure (hexOfString (STText.encodeTextST w d1 d2 m))
   | ["st_fits_dec", w, rows] => do
     let w ← w.toNat?; let rows ← parseRngs rows
     pure (showElems (STCodec.decodeST w rows))
